@@ -68,7 +68,7 @@ func faultTreeGo(raw json.RawMessage) interface{} {
 	if len(t.D) > 0 && t.D[0] == '{' {
 		json.Unmarshal(t.D, &d)
 	}
-	if len(t.A) > 0 {
+	if len(t.A) > 0 && len(d) == 0 {
 		l := make([]interface{}, len(t.A))
 		for i, e := range t.A {
 			l[i] = faultTreeGo(e)
@@ -79,7 +79,28 @@ func faultTreeGo(raw json.RawMessage) interface{} {
 	for k, v := range d {
 		m[k] = faultTreeGo(v)
 	}
+	for i, e := range t.A { // a node with named and positional settings: index keys (the configs are built with a separator)
+		m[strconv.Itoa(i)] = faultTreeGo(e)
+	}
 	return m
+}
+
+// truncLists cuts every list of generic data down to its first element
+func truncLists(v interface{}) interface{} {
+	switch x := v.(type) {
+	case map[string]interface{}:
+		m := map[string]interface{}{}
+		for k, e := range x {
+			m[k] = truncLists(e)
+		}
+		return m
+	case []interface{}:
+		if len(x) == 0 {
+			return x
+		}
+		return []interface{}{truncLists(x[0])}
+	}
+	return v
 }
 
 type faultSeg struct {
@@ -176,10 +197,27 @@ func faultsReplay(args []string) int {
 				routes = append(routes, "getter")
 			}
 		}
+		// every route also on a configuration that reached its state through TWO merges: first the tree with every
+		// list cut down to its first element, then the whole tree (the surplus elements are appended, so their
+		// position is recorded by another code path than NewFrom's)
+		for _, r := range append([]string{}, routes...) {
+			routes = append(routes, r+"/merged")
+		}
 		for _, route := range routes {
 			var o faultObs
+			merged := strings.HasSuffix(route, "/merged")
+			route = strings.TrimSuffix(route, "/merged")
 			panicked, msg := guard(func() {
-				cfg, err := ucfg.NewFrom(faultTreeGo(c.Tree), opts...)
+				var cfg *ucfg.Config
+				var err error
+				if merged {
+					cfg = ucfg.New()
+					if err = cfg.Merge(truncLists(faultTreeGo(c.Tree)), opts...); err == nil {
+						err = cfg.Merge(faultTreeGo(c.Tree), opts...)
+					}
+				} else {
+					cfg, err = ucfg.NewFrom(faultTreeGo(c.Tree), opts...)
+				}
 				if err != nil {
 					o = faultObs{Kind: "build", Msg: err.Error()}
 					return
@@ -211,6 +249,9 @@ func faultsReplay(args []string) int {
 				o = faultObs{Kind: "panic", Msg: msg}
 			}
 			o.Route = route
+			if merged {
+				o.Route += "/merged"
+			}
 			eq := func(exp json.RawMessage) bool {
 				return o.Kind == "err" && o.Typed == "" && o.Path == want && o.Source == faultSource
 			}
